@@ -34,8 +34,13 @@ def first_push(b: bytes) -> bytes:
     raise ValueError('not a push')
 
 
-def one(F, T, k, seeds, sf, scr):
+def one(F, T, k, seeds, sf, scr, bit=0):
+    """bit: which single-bit allowed-flags byte concretises the flag classes: permitted flag = 1 << bit (it excludes
+    sigfield{bit+1}), non-permitted flag = the next bit; the covered field that is perturbed is sigfield{(bit+1)%8+1}"""
     lock_seed, other_seed = seeds
+    ALLOWED = f'{1 << bit:02x}'
+    FLAG = {'f0': '00', 'perm': ALLOWED, 'nonperm': f'{1 << ((bit + 1) % 8):02x}'}
+    excluded, covered = f'sigfield{bit + 1}', f'sigfield{(bit + 1) % 8 + 1}'
     wseed = lock_seed if k['wkey'] == 1 else other_seed
     sseed = lock_seed if k['sursig'] == 1 else other_seed
     pk = E.public_key(lock_seed)
@@ -80,36 +85,50 @@ def one(F, T, k, seeds, sf, scr):
             return 'builder-output-differs-from-documented-layout'
     cache = dict(sf)
     if k['fields'] == 'covered':
-        cache['sigfield2'] = cache['sigfield2'] + b'!'
+        cache[covered] = cache[covered] + b'!'
     elif k['fields'] == 'excluded':
-        cache['sigfield1'] = cache['sigfield1'] + b'!'
+        cache[excluded] = cache[excluded] + b'!'
     return 'true' if F.run_auth_scripts([wit, bytes(lock.bytes)], cache) else 'false'
 
 
 MS_SEEDS = {1: b'\x51' * 32, 2: b'\x52' * 32, 3: b'\x53' * 32, 4: b'\x54' * 32, 5: b'\x55' * 32, 9: b'\x59' * 32}
 
 
-def one_ms(F, T, k, seeds, sf):
+def one_ms(F, T, k, seeds, sf, bit=0):
     """m-of-n multisig lock against the concatenation of single-signature witnesses (bottom first)."""
+    ALLOWED = f'{1 << bit:02x}'
+    FLAG = {'f0': '00', 'perm': ALLOWED, 'nonperm': f'{1 << ((bit + 1) % 8):02x}'}
+    excluded, covered = f'sigfield{bit + 1}', f'sigfield{(bit + 1) % 8 + 1}'
     pks = [E.public_key(seeds[i]) for i in range(1, k['n'] + 1)]
     lock = T.make_multisig_lock(pks, k['m'], ALLOWED)
     wit = b''.join(bytes(T.make_single_sig_witness(seeds[sg['who']], dict(sf), FLAG[sg['fl']]).bytes) for sg in k['sigs'])
     cache = dict(sf)
     if k['fields'] == 'covered':
-        cache['sigfield2'] = cache['sigfield2'] + b'!'
+        cache[covered] = cache[covered] + b'!'
     elif k['fields'] == 'excluded':
-        cache['sigfield1'] = cache['sigfield1'] + b'!'
+        cache[excluded] = cache[excluded] + b'!'
     scripts = [wit, bytes(lock.bytes)] if wit else [bytes(lock.bytes)]
     return 'true' if F.run_auth_scripts(scripts, cache) else 'false'
 
 
+MS_BITS = (0, 4, 7)       # quick tier; all 8 in thorough
+MC_SF = {f'sigfield{i}': b'field %d' % i for i in range(1, 9)}
+
+
 def run_mc(k):
+    """every flag-dependent case is concretised with each of the 8 single-bit allowed-flags bytes"""
     F, T = _impl()
-    if k['lock'] == 'ms':
-        sf = {'sigfield1': b'nonce-7', 'sigfield2': b'pay 10 to bob', 'sigfield3': b''}
-        return one_ms(F, T, k, MS_SEEDS, sf), None
-    sf = {'sigfield1': b'nonce-7', 'sigfield2': b'pay 10 to bob', 'sigfield3': b''}
-    return one(F, T, k, (b'\x41' * 32, b'\x42' * 32), sf, scripts_for()), None
+    flagged = (k['lock'] == 'ms' and any(sg['fl'] != 'f0' for sg in k['sigs'])) or \
+              (k['lock'] != 'ms' and k['fl'] != 'f0' and k['wit'] not in ('sh', 'grsur', 'gascr')) or k['fields'] != 'same'
+    got = None
+    for bit in ((MS_BITS if k['lock'] == 'ms' else range(8)) if flagged else (0,)):
+        if k['lock'] == 'ms':
+            got = one_ms(F, T, k, MS_SEEDS, MC_SF, bit)
+        else:
+            got = one(F, T, k, (b'\x41' * 32, b'\x42' * 32), MC_SF, scripts_for(), bit)
+        if got != k['expect']:
+            return got, f'allowed flags x{1 << bit:02x}'
+    return got, None
 
 
 def record_random(args):
@@ -121,9 +140,11 @@ def record_random(args):
         # keys whose hex begins with every byte value; random sigfield subsets (fields 1 and 2 always present)
         s1 = bytes([r.randrange(256)]) + r.randbytes(31)
         s2 = bytes([r.randrange(256)]) + r.randbytes(31)
-        sf = {'sigfield1': r.randbytes(r.choice([1, 8, 64])), 'sigfield2': r.randbytes(r.choice([1, 8, 64]))}
-        for i in range(3, 9):
-            if r.random() < 0.4:
+        bit = r.randrange(8)
+        # the excluded and the covered field of this bit are always present; the others at random
+        sf = {f'sigfield{bit + 1}': r.randbytes(r.choice([1, 8, 64])), f'sigfield{(bit + 1) % 8 + 1}': r.randbytes(r.choice([1, 8, 64]))}
+        for i in range(1, 9):
+            if f'sigfield{i}' not in sf and r.random() < 0.4:
                 sf[f'sigfield{i}'] = r.randbytes(r.choice([0, 3, 32]))
         body = r.choice([b'', op('TRUE') + op('VERIFY'), push(b'ab') + op('SIZE') + op('POP0')])
         mk = lambda m, v: push(bytes([m])) + op('POP0') + body + (op('TRUE') if v else op('FALSE'))
@@ -144,7 +165,7 @@ def record_random(args):
             k = {'lock': 'ms', 'm': m, 'n': n, 'sigs': sigs, 'fields': r.choice(['same', 'same', 'excluded', 'covered'])}
             seeds = {i: bytes([r.randrange(256)]) + r.randbytes(31) for i in (1, 2, 3, 4, 5, 9)}
             try:
-                got = one_ms(F, T, k, seeds, sf)
+                got = one_ms(F, T, k, seeds, sf, bit)
             except BaseException as e:
                 if isinstance(e, (KeyboardInterrupt, SystemExit)):
                     raise
@@ -157,7 +178,7 @@ def record_random(args):
         match = {'ss': ['ss'], 'ss2': ['ss2'], 'ms11': ['ss'], 'sh': ['sh'], 'gr': ['grkey', 'grsur'], 'ga': ['gakey', 'gascr']}
         k['wit'] = r.choice(match[k['lock']]) if r.random() < 0.7 else r.choice(['ss', 'ss2', 'sh', 'grkey', 'grsur', 'gakey', 'gascr'])
         try:
-            got = one(F, T, k, (s1, s2), sf, scr)
+            got = one(F, T, k, (s1, s2), sf, scr, bit)
         except BaseException as e:
             if isinstance(e, (KeyboardInterrupt, SystemExit)):
                 raise
@@ -180,8 +201,10 @@ def main(tier: str, seed: int) -> int:
                 'builder\'s signature so that script and signer can be varied; the honest assembly must equal the builder\'s bytes) '
                 'and run through run_auth_scripts. traces: random seeds (first byte sweeping all values), sigfield subsets, script '
                 'bodies and perturbations, judged by TLC.')
-    rep.assumptions = ['ideal signatures / hashes', 'sigfield1 is the field excluded by the permitted flag x01; sigfield2 is always covered']
+    rep.assumptions = ['ideal signatures / hashes', 'flag classes are concretised with single-bit allowed-flags bytes (all 8 in MC, a random one per trace): permitted = that bit (excluding its sigfield), non-permitted = the next bit']
     quick = tier == 'quick'
+    global MS_BITS
+    MS_BITS = (0, 4, 7) if quick else tuple(range(8))
     consts = {'MaxWit': 3 if quick else 4}
     scncheck.mc(rep, 'Locks', 'mc', INV, run_mc, workers=4, consts=consts)
     scncheck.mc(rep, 'Locks', 'ms', INV, run_mc, workers=8, consts=consts)
